@@ -263,30 +263,34 @@ def _shapes_compatible(a: Optional[ir.Value], b: Optional[ir.Value]) -> bool:
 
     Concrete dims must match and symbolic dims must carry the same symbol. A
     single dim that cannot be compared is still determined by the (equal)
-    element count; two or more are not, e.g. (A, B) reshaped to (B, A).
+    element count, provided every other extent is known to be non-zero: a
+    literal 0 or a symbolic extent (which may be 0 at run time, e.g. an empty
+    batch) leaves it open. Two or more are never determined, e.g. (A, B)
+    reshaped to (B, A).
     """
     da_seq = _shape_dims_seq(a.shape) if a is not None else None
     db_seq = _shape_dims_seq(b.shape) if b is not None else None
     if da_seq is None or db_seq is None or len(da_seq) != len(db_seq):
         return False
     unproven = 0
-    has_zero = False
+    maybe_zero = False
     for da, db in zip(da_seq, db_seq):
         a_int = isinstance(da, (int, np.integer))
         b_int = isinstance(db, (int, np.integer))
         if a_int and b_int:
             if int(da) != int(db):
                 return False
-            has_zero = has_zero or int(da) == 0
+            maybe_zero = maybe_zero or int(da) == 0
             continue
         if not a_int and not b_int:
             ta, tb = _dim_token(da), _dim_token(db)
             if ta == tb and ta[1] is not None and ta[0] != "repr":
+                maybe_zero = True
                 continue
         unproven += 1
     if unproven == 0:
         return True
-    return unproven == 1 and not has_zero
+    return unproven == 1 and not maybe_zero
 
 
 # ---------------- Attr access ----------------
